@@ -127,7 +127,8 @@ CONTRACTS = {
         "params": {"self": "ref:Variable"},
         "requires": ["self.scale != 0", "self.block is not None", "self.block.ps is not None"],
         "modifies": [], "returns": "real",
-        "ensures": [("scaled", "result * self.scale == spos(self)")],
+        "ensures": [("scaled", "result * self.scale == spos(self)"),
+                    ("unit_scale", "implies(self.scale == 1, result == spos(self))")],
     },
     "vpsc.Constraint.slack": {
         "props": ["C05", "C01"], "heap": True,
